@@ -239,11 +239,22 @@ func genScript(rng *rand.Rand, tcp bool) input {
 	nsend, nstop, nconn := 0, 0, 0
 	type cinfo struct {
 		established bool // registered with a running handler
+		peer        int
 		heldDisp    bool
 		peerClosed  bool
 	}
 	var conns []cinfo
-	established := map[int]int{} // peer -> conn index of an established outgoing/incoming conn (for lookups)
+	// Router.Send uses the first connection to the peer that is in the table (r.connection(id));
+	// it dials - and only then can it be held at router.connected - when there is none. A peer may
+	// have several connections (repeated incoming): closing one leaves the others usable.
+	usable := func(p int) bool {
+		for _, c := range conns {
+			if c.peer == p && c.established && !c.peerClosed {
+				return true
+			}
+		}
+		return false
+	}
 	closedSet := false
 	listening := true
 	heldSends := []int{}
@@ -261,19 +272,16 @@ func genScript(rng *rand.Rand, tcp bool) input {
 	}
 	addSend := func(hold bool) {
 		p := rng.Intn(npeers)
-		_, have := established[p]
+		have := usable(p)
 		if hold && !have {
 			ms = append(ms, m1("sendhold", p))
 			heldSends = append(heldSends, nsend)
-			conns = append(conns, cinfo{})
+			conns = append(conns, cinfo{peer: p})
 			nconn++
 		} else {
 			ms = append(ms, m1("send", p))
 			if !have {
-				conns = append(conns, cinfo{established: !closedSet})
-				if !closedSet {
-					established[p] = nconn
-				}
+				conns = append(conns, cinfo{established: !closedSet, peer: p})
 				nconn++
 			}
 		}
@@ -287,22 +295,19 @@ func genScript(rng *rand.Rand, tcp bool) input {
 		switch mode {
 		case 0:
 			ms = append(ms, m1("incoming", p))
-			conns = append(conns, cinfo{established: !closedSet})
-			if _, have := established[p]; !have && !closedSet {
-				established[p] = nconn
-			}
+			conns = append(conns, cinfo{established: !closedSet, peer: p})
 		case 1:
 			ms = append(ms, m1("incominghold", p))
 			heldIns = append(heldIns, nconn)
-			conns = append(conns, cinfo{})
+			conns = append(conns, cinfo{peer: p})
 		case 2:
 			ms = append(ms, m1("incomingsilent", p))
 			silents = append(silents, nconn)
-			conns = append(conns, cinfo{})
+			conns = append(conns, cinfo{peer: -1})
 		case 3:
 			ms = append(ms, m1("incomingholdacc", p))
 			heldIns = append(heldIns, nconn)
-			conns = append(conns, cinfo{})
+			conns = append(conns, cinfo{peer: p})
 		}
 		nconn++
 	}
@@ -356,11 +361,6 @@ func genScript(rng *rand.Rand, tcp bool) input {
 					ms = append(ms, m1("peerclose", i))
 					conns[i].peerClosed = true
 					conns[i].established = false
-					for p, ci := range established {
-						if ci == i {
-							delete(established, p)
-						}
-					}
 					break
 				}
 			}
@@ -378,9 +378,6 @@ func genScript(rng *rand.Rand, tcp bool) input {
 		nstop++
 		closedSet = true
 		listening = false
-		for p := range established {
-			delete(established, p)
-		}
 		for i := range conns {
 			conns[i].established = false
 		}
